@@ -78,7 +78,12 @@ fn install_hooks() {
         }
         if name.starts_with("srv.") || name.starts_with("conn.") {
             let s = SEQ.fetch_add(1, Ordering::SeqCst);
-            EVENTS.lock().unwrap_or_else(|e| e.into_inner()).push((s, name, fields.to_vec()));
+            let mut g = EVENTS.lock().unwrap_or_else(|e| e.into_inner());
+            // bounded: code under test that spins through a hook point must not eat the memory
+            if g.len() < 200_000 {
+                g.push((s, name, fields.to_vec()));
+            }
+            drop(g);
             EVCV.notify_all();
         }
     })));
@@ -560,11 +565,10 @@ fn hostile_mode(inputs: &[Value], _seed: u64, si: usize, sn: usize, out: &mut Tr
             // keep within max_connections: leaked hostile sockets are closed by dropping the process-wide list
             // (forgotten sockets stay open on purpose; the server has 4 slots and each run needs 3)
         }
-        // re-establish the control connection if the server (wrongly) closed it
-        if ctl.iter().any(|c| c["ending"] != "ok") {
-            if let Some(c) = connect(srv.addr) {
-                control = c;
-            }
+        // the server failed the control connection: that is the verdict, do not grind through the
+        // rest of the streams against a broken server
+        if ctl.iter().any(|c| c["ending"] != "ok") || !fresh_ok {
+            break;
         }
     }
     srv.stop();
@@ -801,7 +805,7 @@ fn shutdown_mode(inputs: &[Value], _seed: u64, si: usize, sn: usize, out: &mut T
         let hooks = take_events();
         srv.stop();
         pend.clear();
-        out.emit(&json!({"ev": "shutdown", "states": states, "returned": ret.is_some(), "return_ms": ret.map(|d| d.as_millis() as u64),
+        out.emit(&json!({"ev": "shutdown", "states": states, "returned": ret.is_some(), "return_ms": ret.map(|d| d.as_millis() as i64).unwrap_or(-1),
                          "clients": cl_out, "store": final_store,
                          "hooks": hooks.iter().filter(|e| e["name"].as_str().unwrap_or("").starts_with("srv.")).cloned().collect::<Vec<_>>()}));
         n += 1;
@@ -946,6 +950,26 @@ fn main() {
     let mut out = TraceOut::create(&path);
     out.emit(&json!({"ev": "header", "mode": args[1]}));
     install_hooks();
+    // watchdog: a scenario that makes no progress for 90 s is recorded as a hang (the pending note
+    // is still in place, the orchestrator turns it into the outcome of that scenario)
+    {
+        let path = pend.0.clone();
+        std::thread::spawn(move || {
+            let mut last = (std::time::SystemTime::UNIX_EPOCH, 0u64);
+            let mut since = Instant::now();
+            loop {
+                std::thread::sleep(Duration::from_secs(2));
+                let cur = fs::metadata(&path).map(|m| (m.modified().unwrap_or(std::time::SystemTime::UNIX_EPOCH), m.len())).unwrap_or(last);
+                if cur != last {
+                    last = cur;
+                    since = Instant::now();
+                } else if cur.1 > 0 && since.elapsed() > Duration::from_secs(90) {
+                    eprintln!("watchdog: scenario hung for 90 s");
+                    std::process::abort();
+                }
+            }
+        });
+    }
     let n = match args[1].as_str() {
         "kv" => kv_mode(&inputs, seed, si, sn, &mut out, &pend),
         "hostile" => hostile_mode(&inputs, seed, si, sn, &mut out, &pend),
